@@ -36,6 +36,10 @@ pub struct Model {
     /// message bodies are hashed collections (std HashMap / HashSet with per-instance random iteration order) whose
     /// size enters the message length and so the transmission time
     pub hashed_bodies: bool,
+    /// module 0 runs one task that yields this many times within the first instant (0 = none); its progress is part
+    /// of the trace at every later event of the module - how far it got may only depend on virtual time, never on
+    /// how long the executor needed
+    pub marathon_yields: u32,
 }
 
 pub fn gen_model(model_seed: u64) -> Model {
@@ -52,11 +56,13 @@ pub fn gen_model(model_seed: u64) -> Model {
         end_emit: (0..n).map(|_| if rng.chance(1, 3) { 1 + rng.below(2) as u8 } else { 0 }).collect(),
         same_deadline_tasks: (0..n).map(|_| if rng.chance(1, 3) { 2 + rng.usize_below(7) } else { 0 }).collect(),
         hashed_bodies: rng.chance(1, 2),
+        marathon_yields: if rng.chance(1, 150) { 300_000 + rng.below(200_000) as u32 } else { 0 },
     }
 }
 
 thread_local! {
     static TRACE: RefCell<Vec<String>> = const { RefCell::new(Vec::new()) };
+    static PROGRESS: std::cell::Cell<u32> = const { std::cell::Cell::new(0) };
 }
 
 fn tr(s: String) {
@@ -89,6 +95,17 @@ impl Module for Node {
         }
         let flavour = self.model.tasks[self.idx];
         let inc = self.incarnation;
+        if self.idx == 0 && inc == 0 && self.model.marathon_yields > 0 {
+            let (n, me2) = (self.model.marathon_yields, me.clone());
+            tokio::spawn(async move {
+                for i in 1..=n {
+                    tokio::task::yield_now().await;
+                    PROGRESS.with(|p| p.set(i));
+                }
+                let r: u64 = des::runtime::random();
+                tr(format!("{} {me2} marathon of {n} yields done, drew {r}", now()));
+            });
+        }
         if flavour >= 1 {
             let me2 = me.clone();
             tokio::spawn(async move {
@@ -149,6 +166,9 @@ impl Module for Node {
         } else {
             String::from("plain")
         };
+        if self.idx == 0 && self.model.marathon_yields > 0 {
+            tr(format!("{} {me} marathon progress {}", now(), PROGRESS.with(std::cell::Cell::get)));
+        }
         tr(format!(
             "{} {me} msg kind {} id {} content {content} {shape} length {} from {:?} drew {r}",
             now(),
@@ -206,6 +226,7 @@ pub struct Outcome {
 
 pub fn execute(model: &Model, sim_seed: u64) -> Outcome {
     TRACE.with(|t| t.borrow_mut().clear());
+    PROGRESS.with(|p| p.set(0));
     let res = vcommon::catch(|| {
         let mut sim = Sim::new(());
         for i in 0..model.n {
@@ -335,6 +356,9 @@ pub fn cmd(args: &Args) -> Report {
             rep.count("select_choices_observed", a.trace.iter().filter(|l| l.contains(" select ")).count() as u64);
             rep.count("random_draws_observed", a.trace.iter().filter(|l| l.contains(" drew ") || l.contains("-sample ")).count() as u64);
             rep.count("restarts_observed", a.trace.iter().filter(|l| l.contains("requests restart")).count() as u64);
+            if model.marathon_yields > 0 {
+                rep.count("models_with_a_task_of_over_300000_polls_in_one_instant", 1);
+            }
             rep.count("hashed_collection_bodies_delivered", a.trace.iter().filter(|l| l.contains(" map of ") || l.contains(" set of ")).count() as u64);
             if model.jitter_ns > 0 {
                 rep.count("runs_with_channel_jitter", 1);
